@@ -20,8 +20,8 @@ func init() {
 			"Oracle: the documented scanning discipline run on emerge's own Spec.DFA(): longest run the automaton allows, owner of the state reached or lexical error, WS/EOL/COMMENT skipped, unmatched space/tab/CR/LF discarded at a token start, exact lexeme, offset (rune- or byte-based, consistently), line, column, EOF after the last token. non-trivial = input yields >= 2 tokens or an error after >= 1 token; distinct by (specification, input).",
 		assumptions: []string{"inputs are valid UTF-8 (a few invalid ones only require termination with an error)", "token definitions that match the empty string are excluded", "lexemes are shorter than one buffer half (4096 bytes), the emitted reader's documented limit"},
 		floorQuick:  3000, floorThorough: 60000,
-		serial:      true,
-		run:         runC19,
+		serial: true,
+		run:    runC19,
 	})
 }
 
